@@ -74,6 +74,17 @@ def render(n, sig, L):
             % (n, n, generics(L, decl), selfs, ps, rty(sig["ret"])))
 
 
+def render_ctor(n, sig, L):
+    """The same signature as a Python CONSTRUCTOR of a borrowing opaque: fn m(n0: u8, x, y) -> Box<Self<'s>>.  nanobind ties the
+    borrowed arguments to the new object (nurse 1 = self) and numbers the arguments after it from 2."""
+    decl = [tuple(x) for x in sig["decl"]]
+    ps = ", ".join(["n0: u8"] + ["%s: %s" % ("xy"[i], pty(p)) for i, p in enumerate(sig["params"])])
+    s = lt(sig["ret"]["slots"][0])
+    return ("    #[diplomat::opaque]\n    pub struct H%d<'p>(&'p u8);\n    impl%s H%d<%s> {\n"
+            "        #[diplomat::attr(nanobind, constructor)]\n        pub fn m(%s) -> Box<H%d<%s>> { todo!() }\n    }\n"
+            % (n, generics(L, decl), n, s, ps, n, s))
+
+
 def module(items):
     return "#[diplomat::bridge]\nmod ffi {\n    use diplomat_runtime::{DiplomatOption, DiplomatSlice, DiplomatStrSlice, DiplomatWrite};\n" + PRELUDE + "\n".join(items) + "}\n"
 
@@ -157,7 +168,13 @@ def backend_emission(rep, cases, L, wd, k):
     pool = [c for c in cases if usable(c)]
     rng.shuffle(pool)
     pick = pool[:k]
-    items = [render(n, c["sig"], L) for n, c in enumerate(pick)]
+    # constructors: static methods returning a boxed borrowing opaque, re-rendered as constructors of that opaque
+    ctors = [c for c in pool if c["sig"]["self"]["kind"] == "none" and c["sig"]["ret"]["kind"] == "rbox"
+             and c["sig"]["ret"]["slots"][0] in L][:max(6, k // 6)]
+    nplain = len(pick)
+    pick = pick + ctors
+    items = [render(n, c["sig"], L) if n < nplain else render_ctor(n, c["sig"], L) for n, c in enumerate(pick)]
+    rep.extra["emission_constructors"] = len(ctors)
     src = os.path.join(wd, "emit.rs")
     open(src, "w").write(module(items))
     nchecked = 0
@@ -174,7 +191,7 @@ def backend_emission(rep, cases, L, wd, k):
             want = set()
             for es in expected_edges(c).values():
                 want |= set(e[0] for e in es)
-            got = emitted_params(b, out, "H%d" % n, c["sig"])
+            got = emitted_params(b, out, "H%d" % n, c["sig"], ctor=(n >= nplain))
             if got is None:
                 rep.extra.setdefault("emission_unparsed", 0)
                 rep.extra["emission_unparsed"] += 1
@@ -272,7 +289,7 @@ def _names(tokens, sig):
     return got
 
 
-def emitted_params(b, out, tname, sig):
+def emitted_params(b, out, tname, sig, ctor=False):
     try:
         if b == "js":
             t = open(os.path.join(out, tname + ".mjs")).read()
@@ -298,6 +315,12 @@ def emitted_params(b, out, tname, sig):
             return _names(toks, sig)
         if b == "nanobind":
             t = open(os.path.join(out, "somelib_ext.cpp")).read()
+            if ctor:
+                # .def(nb::new_(&H::m), "n0"_a, "x"_a, ..., nb::keep_alive<1, N>()): nurse 1 is the new object, argument i is N = i + 2
+                mm = re.search(r'\.def\(nb::new_\(&%s::m\)([^\n]*)' % tname, t)
+                idx = [int(x) for x in re.findall(r'nb::keep_alive<1, (\d+)>', mm.group(1))]
+                order = ["n0", "x", "y"][:1 + len(sig["params"])]
+                return set(order[i - 2] for i in idx if 2 <= i <= len(order) + 1)
             mm = re.search(r'\.def(?:_static)?\("m", &%s::m([^\n]*)' % tname, t)
             idx = [int(x) for x in re.findall(r'nb::keep_alive<0, (\d+)>', mm.group(1))]
             order = (["self"] if sig["self"]["kind"] != "none" else []) + ["x", "y"][:len(sig["params"])]
